@@ -80,14 +80,43 @@ def centre2 (i j : Nat) : Pt := ⟨2 * (i : Int) + 1, 2 * (j : Int) + 1⟩
 def lawAt (A B R : Polygon) (op : Op) (p : Pt) : Bool :=
   inside R p == op.apply (inside A p) (inside B p)
 
-/-- `A2 B2 R2` are the doubled polygons -/
+/-! The cell loops work on edge lists computed once per call (`insideE (allEdges P) p` is `inside P p` by definition). -/
+
+def crossCountE (E : List (Pt × Pt)) (p : Pt) : Nat := E.countP (fun e => crosses e.1 e.2 p)
+def insideE (E : List (Pt × Pt)) (p : Pt) : Bool := crossCountE E p % 2 == 1
+def lawAtE (EA EB ER : List (Pt × Pt)) (op : Op) (p : Pt) : Bool :=
+  insideE ER p == op.apply (insideE EA p) (insideE EB p)
+
+theorem insideE_allEdges (P : Polygon) (p : Pt) : insideE (allEdges P) p = inside P p := rfl
+theorem lawAtE_allEdges (A B R : Polygon) (op : Op) (p : Pt) :
+    lawAtE (allEdges A) (allEdges B) (allEdges R) op p = lawAt A B R op p := rfl
+
+/-- does the edge straddle the horizontal line at ordinate `y` (only such edges can be crossed by a ray at `y`) -/
+def straddles (y : Int) (e : Pt × Pt) : Bool :=
+  (decide (e.1.y ≤ y) && decide (y < e.2.y)) || (decide (e.2.y ≤ y) && decide (y < e.1.y))
+
+/-- `A2 B2 R2` are the doubled polygons.  Row by row: only the edges that straddle the row's centre line are kept
+    (`Lemmas/EvenOdd.lean`, `insideE_filter`: this does not change `insideE`). -/
 def cellsOK (N : Nat) (A2 B2 R2 : Polygon) (op : Op) : Bool :=
-  (List.range N).all fun i => (List.range N).all fun j => lawAt A2 B2 R2 op (centre2 i j)
+  let EA := allEdges A2
+  let EB := allEdges B2
+  let ER := allEdges R2
+  (List.range N).all fun (j : Nat) =>
+    let y : Int := 2 * (j : Int) + 1
+    let ra := EA.filter (straddles y)
+    let rb := EB.filter (straddles y)
+    let rr := ER.filter (straddles y)
+    (List.range N).all fun i => lawAtE ra rb rr op (centre2 i j)
 
 /-- the combined region contains no cell -/
 def regionEmpty (N : Nat) (A2 B2 : Polygon) (op : Op) : Bool :=
-  (List.range N).all fun i => (List.range N).all fun j =>
-    !(op.apply (inside A2 (centre2 i j)) (inside B2 (centre2 i j)))
+  let EA := allEdges A2
+  let EB := allEdges B2
+  (List.range N).all fun (j : Nat) =>
+    let y : Int := 2 * (j : Int) + 1
+    let ra := EA.filter (straddles y)
+    let rb := EB.filter (straddles y)
+    (List.range N).all fun i => !(op.apply (insideE ra (centre2 i j)) (insideE rb (centre2 i j)))
 
 /-- `Polygon.Empty` -/
 def resultEmpty (R : Polygon) : Bool := R.all List.isEmpty
@@ -99,9 +128,13 @@ def validateLattice (N : Nat) (A B R : Polygon) (op : Op) : Bool :=
 
 /-- first cell whose centre breaks the law (witness for the report only) -/
 def firstBadCell (N : Nat) (A B R : Polygon) (op : Op) : Option (Nat × Nat) :=
-  let A2 := dblPoly A; let B2 := dblPoly B; let R2 := dblPoly R
-  (List.range N).findSome? fun i => (List.range N).findSome? fun j =>
-    if lawAt A2 B2 R2 op (centre2 i j) then none else some (i, j)
+  let EA := allEdges (dblPoly A); let EB := allEdges (dblPoly B); let ER := allEdges (dblPoly R)
+  (List.range N).findSome? fun (j : Nat) =>
+    let y : Int := 2 * (j : Int) + 1
+    let ra := EA.filter (straddles y)
+    let rb := EB.filter (straddles y)
+    let rr := ER.filter (straddles y)
+    (List.range N).findSome? fun i => if lawAtE ra rb rr op (centre2 i j) then none else some (i, j)
 
 /-! ## sample-point validator -/
 
